@@ -339,6 +339,9 @@ func (w *c12World) failf(vw *vx.W, clause, format string, a ...any) {
 // names the abstract situation if it is a recognisable structural one: a
 // stream that is open under the contract has no node in the priority tree.
 func (w *c12World) diagnose() string {
+	if ws, ok := w.ws.(*priorityWriteSchedulerRFC9218); ok {
+		return w.diagnose9218(ws)
+	}
 	ws, ok := w.ws.(*priorityWriteSchedulerRFC7540)
 	if !ok {
 		return ""
@@ -349,6 +352,83 @@ func (w *c12World) diagnose() string {
 		}
 	}
 	return ""
+}
+
+// diagnose9218 does the same for the RFC 9218 scheduler: a stream that is open
+// under the contract has no queue, or its queue is in no ring that Pop can
+// reach from the (urgency, incremental) head table.
+func (w *c12World) diagnose9218(ws *priorityWriteSchedulerRFC9218) string {
+	for id := range w.streams {
+		if w.streams[id].state != 1 {
+			continue
+		}
+		loc := ws.streams[uint32(id)].location
+		if loc == nil {
+			return "open-stream-missing-from-stream-table"
+		}
+		linked := false
+		for u := range ws.heads {
+			for i := range ws.heads[u] {
+				q := ws.heads[u][i]
+				for n := 0; q != nil && n < 2*c12MaxID; n++ { // bounded: a damaged ring need not close
+					if q == loc {
+						linked = true
+					}
+					if q = q.next; q == ws.heads[u][i] {
+						break
+					}
+				}
+			}
+		}
+		if !linked {
+			return "open-stream-unreachable-from-priority-rings"
+		}
+	}
+	return ""
+}
+
+// popWouldHang9218 reports whether the next Pop of the RFC 9218 scheduler is
+// certain to loop forever: Pop walks each (urgency, incremental) ring from its
+// head until it is back at the head, and returns early only at a queue it can
+// consume from. If no control frame is queued, every ring Pop visits before
+// (urgency ascending, within one urgency in the order servedIncrementalLast
+// selects) is closed and holds only empty queues, and the walk from some head runs through
+// empty queues only without ever coming back to that head (the head is a queue
+// that was unlinked from the ring it points into), Pop cannot return. Anything
+// less certain is left to the real Pop (and the engine's watchdog).
+func (w *c12World) popWouldHang9218() bool {
+	ws, ok := w.ws.(*priorityWriteSchedulerRFC9218)
+	if !ok || !ws.control.empty() {
+		return false
+	}
+	for u := range ws.heads {
+		for i := range ws.heads[u] {
+			if !ws.servedIncrementalLast[u] {
+				i = (i + 1) % 2 // Pop's own visiting order within one urgency
+			}
+			head := ws.heads[u][i]
+			if head == nil {
+				continue
+			}
+			q, closed := head, false
+			for n := 0; n < 4*c12MaxID; n++ { // more steps than queues exist: past that the walk is in a cycle without head
+				if q == nil {
+					return false // Pop would panic, not hang
+				}
+				if !q.empty() {
+					return false // Pop may return here
+				}
+				if q = q.next; q == head {
+					closed = true
+					break
+				}
+			}
+			if !closed {
+				return true
+			}
+		}
+	}
+	return false
 }
 
 // c12PanicSite extracts the first repository frame below a panic.
@@ -503,6 +583,10 @@ func (w *c12World) situation() string {
 // pop runs one Pop on the real scheduler and checks it against the model,
 // following the scheduler's choice.
 func (w *c12World) pop(vw *vx.W) (info c12PopInfo) {
+	if w.popWouldHang9218() {
+		w.failf(vw, "pop-would-not-terminate/priority-ring-does-not-return-to-its-head", "an (urgency, incremental) head points to a queue that is not part of the ring it leads into and every queue on the way is empty; Pop would loop forever")
+		return
+	}
 	wr, ok := w.ws.Pop()
 	if !ok {
 		if len(w.ctl) > 0 {
